@@ -819,3 +819,67 @@ Theorem C01_new_context6 :
     c6_pdov cx = (if N.eqb pf 0 then 0 else match at_pdpool at6 with AvStr n => n | _ => 0 end).
 Proof. exact new_context6_fields. Qed.
 Print Assumptions C01_new_context6.
+
+(* ================================================================ direction changes (HA role changes) *)
+(* PoolAllocator/PrefixAllocator.SetDirection: no lease changes; under the invariant the free list is only permuted *)
+Theorem C01_direction_change_pool :
+  forall c ks st evs b st' o,
+    pool_run Repaired c ks = Some (st, evs) -> pool_step Repaired c st (CSetDir b) = Some (st', o) ->
+    leases st' = leases st /\ Permutation.Permutation (free st') (free st).
+Proof.
+  intros c ks st evs b st' o H S.
+  destruct (setdir_pool_safe c st b st' o) as [L [P _]]; [eapply inv_run; [apply inv_init | exact H] | exact S | auto].
+Qed.
+Print Assumptions C01_direction_change_pool.
+
+(* Registry.SetAllocDirection: no lease map and no allocator geometry changes in any family; together with
+   C01_registry_alloc_unique (whose histories contain direction changes anywhere) whatever is handed out after any
+   number of role changes is assignable and unheld *)
+Theorem C01_direction_change_registry :
+  forall v st b st' o, reg_step v st (RSetDir b) = Some (st', o) ->
+    (forall f k, leases_of st' f k = leases_of st f k) /\ (forall f k, cfg_of st' f k = cfg_of st f k).
+Proof. exact setdir_registry_safe. Qed.
+Print Assumptions C01_direction_change_registry.
+
+(* what a direction means for the code's own policy (pop the end of the slice): right after the free list was
+   (re)built - at construction and at every real direction change - it takes the LOWEST free assignable address
+   when ascending, the HIGHEST when descending.  Model-level statement about the transcribed policy; the
+   correspondence does not constrain which free address an implementation picks. *)
+Theorem C01_direction_semantics :
+  forall c m b,
+    let st := {| free := build_free c m b; leases := m; asc := b |} in
+    match lifo_choice st with
+    | Some a => In a (free st) /\
+                forall x, In x (free st) -> x <> a -> if b then snd a < snd x else snd x < snd a
+    | None => free st = []
+    end.
+Proof. exact rebuilt_direction. Qed.
+Print Assumptions C01_direction_semantics.
+
+(* ResolveV6 twin of C01_resolve4_stakes_or_no_registry *)
+Theorem C01_resolve6_stakes_or_no_registry :
+  forall v r s cx obsna obspd wna wpd r' cx' x,
+    resolve6_ctx_opt v r s cx obsna obspd wna wpd = Some (r', cx', x) -> r6_nil x = false ->
+    match r with
+    | Some st =>
+        exists st', r' = Some st' /\
+        (forall a, r6_na x = Some a ->
+           match c6_na cx with
+           | None => staked_ans v st' FNA s (OA a)
+           | Some b => b = a /\ (staked v st' FNA s (RA (Some a)) \/ unmanaged v st FNA (RA (Some a)))
+           end) /\
+        (forall o, r6_pd x = Some o -> c6_pd cx = None /\ staked_ans v st' FPD s o) /\
+        (forall p, c6_pd cx = Some p -> staked v st' FPD s (RP p) \/ unmanaged v st FPD (RP p))
+    | None =>
+        r' = None /\ cx' = cx /\ r6_na x = c6_na cx /\ r6_pd x = None /\ r6_napool x = None /\ r6_pdpool x = None /\
+        (c6_na cx <> None \/ c6_pd cx <> None)
+    end.
+Proof. exact resolve6_opt_staked. Qed.
+Print Assumptions C01_resolve6_stakes_or_no_registry.
+
+Example C01_direction_nonvacuous :
+  lifo_choice (pool_init ex_pool) = Some (V4, 167772410) /\
+  (exists st o, pool_step Repaired ex_pool (pool_init ex_pool) (CSetDir false) = Some (st, o) /\
+                lifo_choice st = Some (V4, 167772421)).
+Proof. split; [vm_compute; reflexivity | eexists; eexists; split; vm_compute; reflexivity]. Qed.
+Print Assumptions C01_direction_nonvacuous.
